@@ -393,6 +393,12 @@ def run_schedule(item):
 
     def predicate(row):
         return row['id'] in sel
+    fail_ids = set(item.get('fail_ids') or [])
+
+    def row_func_(row):
+        if row['id'] in fail_ids:
+            raise ValueError('row_func fails on row %d' % row['id'])
+        row['n'] += 1
 
     fail_after = item.get('fail_after')
 
@@ -404,7 +410,7 @@ def run_schedule(item):
 
     def consumer():
         it = failing(rows) if fail_after is not None else iter(rows)
-        gen = pm.fork(_Res(it), row_func, N, predicate)
+        gen = pm.fork(_Res(it), row_func_, N, predicate)
         for row in gen:
             if not s.started:
                 s.log.append(['CPeekYield', row['id']])
@@ -413,8 +419,11 @@ def run_schedule(item):
         if not s.started:
             s.log.append(['CPeekEnd'])
         state['terminated'] = True
+    import contextlib
+    import io
     try:
-        main = s.run(consumer)
+        with contextlib.redirect_stdout(io.StringIO()):      # work() prints row_func failures
+            main = s.run(consumer)
         if main.error is not None:
             state['error'] = '%s: %s' % (type(main.error).__name__, main.error)
     finally:
